@@ -326,6 +326,7 @@ def evaluate(prop, spec, tier, seed):
         except RuntimeError as e:
             res['error'] = (res.get('error') or '') + ' ' + str(e)
     res['bundle_wall_s'] = meta.get('wall_s')
+    res['kernel_sample'] = meta.get('kernel_sample', 0)
     res['exhaustive'] = any(f.startswith('exh') for f in res['families']) and not res.get('error')
     res['exhaustive_scope'] = spec.get('exhaustive_scope', '')
     return res
